@@ -97,6 +97,9 @@ func H_C20_concurrent() {
 	defer vFSCleanup()
 	dir := root + "/logs"
 	vFSMkdir(dir)
+	savedCap := BufferCap.Load()
+	BufferCap.Store(vInt32("bufferCap")) // lines below, at and beyond the buffer-reuse cap
+	defer BufferCap.Store(savedCap)
 	lay := &TextLayout{BaseLayout{FileLineLength: 48}}
 	sink := &vSink{slow: true}
 	saved := Stdout
